@@ -10,6 +10,7 @@ Line protocol for the `compose` slice:
             | pol timeout | pol hedge <maxHedges> <cancelOn>
   compose ext <bulkhead id> <k>      hold k permits through the standalone API
   compose adv <ns>                   advance the virtual clock
+  compose mute <pos,…>               the policies at these positions are built without any listener (their listener events are not observable)
   compose run <ctxKey|-|''> <script> [x=<fn|sched|pre>:<k>:<ctx|async>]   script = items `val,err[,B]` separated by `;` (or `-`);
             x = the execution is cancelled from inside the k-th function invocation / k-th OnRetryScheduled listener / before it
             starts, through its context or through ExecutionResult.Cancel
@@ -28,6 +29,7 @@ structure St where
   maxStack : Nat := 0
   md : List Nat := []      -- positions of retry policies with a max duration
   cancelled : Nat := 0     -- runs in which the scripted cancellation fired
+  mute : List Nat := []    -- positions whose policy was built without listeners: their listener events are not observable
 
 def parseItem (s : String) : Option Item :=
   match s.splitOn "," with
@@ -43,6 +45,11 @@ def evStr (hasHedge : Bool) (e : Exec.Event) : String :=
   let nm := match e.seen with | some o => s!"{e.name}[{o.val},{errStr o.err}]" | none => e.name
   if e.name.startsWith "cb[" then s!"{e.name}@{e.pos}"
   else s!"{nm}@{e.pos}:{e.att}/{if hasHedge then "*" else toString e.exe}"
+
+/-- a listener event of a policy (not the wrapped function `fn` / `fnh`, not a fallback function `fb.fn`, not the breaker's instance
+listeners `cb…`, not the executor's `ex.…`) -/
+def isPolicyListener (n : String) : Bool :=
+  n.startsWith "rp." || (n.startsWith "fb.on") || n.startsWith "ca." || n.startsWith "to." || n.startsWith "hp."
 
 def worldStr (w : World) : String :=
   let brs := w.breakers.map fun (_, b) =>
@@ -84,6 +91,7 @@ def step (d : St) (toks : List String) : St × Option String :=
     let bulk := d.w.bulk.mapIdx fun i cb => if i == nat! id then (cb.1, nat! k) else cb
     ({ d with w := { d.w with bulk := bulk } }, none)
   | ["adv", n] => ({ d with w := { d.w with now := d.w.now + int! n } }, none)
+  | ["mute", ps] => ({ d with mute := d.mute ++ (ps.splitOn ",").map (fun x => nat! x) }, none)
   | op :: ck :: script :: xs =>
     if op != "run" && op != "runa" then (d, some "bad-op") else
     let ctxKey := if ck == "-" then none else if ck == "''" then some "" else some ck
@@ -106,7 +114,7 @@ def step (d : St) (toks : List String) : St × Option String :=
       ({ d with w := r.w, runs := d.runs + 1, events := d.events + r.log.length, nontrivial := d.nontrivial + (if nontriv then 1 else 0),
                 maxStack := max d.maxStack d.ps.length, cancelled := d.cancelled + (if r.ext.isSome then 1 else 0) },
        some (s!"res {res.val} {errStr res.err} verdict={verdict} inv={r.inv} att={r.attempts} exe={r.execs} ret={r.retries} hed={r.hedges} " ++
-             s!"log={";".intercalate (r.log.map (evStr d.hasHedge))} {worldStr r.w}"))
+             s!"log={";".intercalate ((r.log.filter (fun e => !(d.mute.contains e.pos && isPolicyListener e.name))).map (evStr d.hasHedge))} {worldStr r.w}"))
   | _ => (d, some "bad-op")
 
 end Driver.Compose
